@@ -9,7 +9,8 @@ From Coq Require Import String List.
 From CMinx Require Import Base.Str Model.Parser Model.Writer Model.DocTypes Model.Aggregator
      Model.Pipeline Proofs.WriterFacts Proofs.RstStructure Proofs.PageFacts
      Base.PySem Gen.PySource Proofs.SourceMatch
-     Base.PyWriterSem Gen.PyWriterSource Proofs.WriterSourceMatch.
+     Base.PyWriterSem Gen.PyWriterSource Proofs.WriterSourceMatch
+     Proofs.SourceMatch3.
 Import ListNotations.
 
 (* every entry renders to exactly one directive *)
@@ -139,3 +140,41 @@ Theorem C07_directive_to_text_matches :
     = Some (elem_text (eff st) lvl d (Dir name args opts body)).
 Proof. exact directive_to_text_matches. Qed.
 Print Assumptions C07_directive_to_text_matches.
+
+(* py2coq batch 5: the rendering loop of Documenter.process_docs (dynamic dispatch over the class hierarchy as it is in documentation_types.py) regenerated from source on every run serialises to the model page *)
+Theorem C07_dispatch_process_matches_source :
+  forall w e,
+    PySource.dispatch_process w [] e = Some (w_add w (render_entry e), after_process e).
+Proof. exact dispatch_process_matches_source. Qed.
+Print Assumptions C07_dispatch_process_matches_source.
+
+Theorem C07_process_docs_renders_page :
+  forall fl trigger strip_fn strip_mac strip_mem f st hdrs title module_name,
+    aggregate fl trigger strip_fn strip_mac strip_mem f = Ok st ->
+    option_map (fun r => doc_text hdrs (w_title (fst r)) (w_body (fst r)))
+               (PySource.Documenter_process_docs_whole (winit title) (documented st) module_name [])
+    = Some (render_page hdrs title module_name (documented st)).
+Proof. exact process_docs_renders_page. Qed.
+Print Assumptions C07_process_docs_renders_page.
+
+Theorem C07_process_docs_to_text_matches_source :
+  forall hdrs title module_name docs,
+    modules_only_first docs = true ->
+    exists w' docs',
+      PySource.Documenter_process_docs_whole (winit title) docs module_name [] = Some (w', docs')
+      /\ wstep hdrs w' (OToText []) = (w', WText (render_page hdrs title module_name docs)).
+Proof. exact process_docs_to_text_matches_source. Qed.
+Print Assumptions C07_process_docs_to_text_matches_source.
+
+Theorem C07_documenter_process_matches_source :
+  forall hdrs file title module_name docs,
+    modules_only_first docs = true ->
+    let init := PySource.Documenter_init_writer file title module_name in
+    exists w' docs',
+      PySource.Documenter_process_after_walk (fst (fst init)) (snd (fst init)) (snd init) docs
+      = Some (w', [], docs')
+      /\ wstep hdrs w' (OToText [])
+         = (w', WText (render_page hdrs (effective_title file title)
+                                   (effective_module file title module_name) docs)).
+Proof. exact documenter_process_matches_source. Qed.
+Print Assumptions C07_documenter_process_matches_source.
